@@ -6,6 +6,7 @@ mod lattice;
 mod layout;
 mod oracle;
 mod props;
+mod sched;
 mod txnsys;
 mod upgrade;
 
